@@ -31,6 +31,14 @@ def gen_histories(rng, d, n, prefix, with_foreign=True):
             descs = None
         ops = hist.gen_ops(rng, g, rng.randrange(4, 18), mix={'W': 50, 'D': 15, 'F': 12, 'S': 8, 'R': 8, 'K': 5, 'N': 2}, flush_end=False)
         ops = [o for o in ops if o[0] != 'O']
+        if images is None and rng.random() < 0.35:
+            # boundary scenario on a geometry whose L2 tables have several slices
+            cbx = rng.choice([10, 11, 12])
+            g = hist.Geom(cbx, rng.choice([0, 2, 4, 6]), rng.choice([3, 5]) * (1 << cbx) * 64, 9, (9, rng.choice([2, 3, 8]) << 9), (9, rng.choice([2, 4]) << 9), punch=rng.choice([1, 0]))
+            flat = hist.Flat(g.size)
+            bo = hist.boundary_ops(rng, g)
+            if bo:
+                ops = bo
         # make some sync points: F immediately followed by S
         for _ in range(2):
             pos = rng.randrange(0, len(ops) + 1)
@@ -55,8 +63,8 @@ def run_prop(prop, tier, seed, replay):
         print(out[-3000:])
         return 2
     d = qv.workdir(prop.lower())
-    nh = 14 if tier == 'quick' else 200
-    budget = 500 if tier == 'quick' else 3000
+    nh = 60 if tier == 'quick' else 400
+    budget = 400 if tier == 'quick' else 2500
     cases = gen_histories(rng, d, nh, prop.lower() + '_')
     obs = seqrun.run_cases_text(d, [(c['cid'], c['text']) for c in cases], timeout=900)
     finds = []
@@ -107,13 +115,7 @@ def run_prop(prop, tier, seed, replay):
             paths.append(p)
         nimg += len(paths)
         if prop == 'C04':
-            lst = os.path.join(d, cid + '.lst')
-            open(lst, 'w').write('\n'.join(paths) + '\n')
-            rc, dout = qv.sh('ulimit -s unlimited; exec %s check %s' % (os.path.join(qv.VERIF, 'driver', 'qdrv'), lst), timeout=1200)
-            vd = {}
-            for ln in dout.split('\n'):
-                if ln.strip():
-                    vd[ln.split()[0]] = dict(x.split('=', 1) for x in ln.split()[1:] if '=' in x)
+            vd = qv.qdrv_check(paths, d)
             for j, p in enumerate(paths):
                 v = vd.get(p, {})
                 if v.get('safe') != '1':
